@@ -46,52 +46,4 @@ void h_psig_agg(void) {
 #endif
 }
 
-/* ---- UNBOUNDED gates (n_sigs symbolic, loop contracts supplied from the unit table): a NULL entry or a signature object
- * without its magic at ANY index => illegal callback and 0, nothing written; success => first half = session nonce and
- * the s value written is a canonical scalar.  The VALUE of the sum is the bounded unit above. ---- */
-size_t verif_c12_gi, verif_c12_j1, verif_c12_j2;   /* ghost indices: an arbitrary one, and the two positions where the list deviates from &ga */
-static void cb_illegal_d(const char *s, void *d) { (void)s; (*(unsigned *)d)++; }
-void h_psig_agg_gates(void) {
-    secp256k1_context ctx;
-    INPUT(secp256k1_musig_partial_sig, ga); INPUT(secp256k1_musig_partial_sig, gb); INPUT(secp256k1_musig_session, gsess); INPUT_ARR(unsigned char, gsig64, 64);
-    INPUT(size_t, n); INPUT(size_t, gi); INPUT(size_t, j1); INPUT(size_t, j2); INPUT(unsigned char, sel1); INPUT(unsigned char, sel2); INPUT(_Bool, use_sig); INPUT(_Bool, use_sess); INPUT(_Bool, use_arr); INPUT(size_t, k);
-    const secp256k1_musig_partial_sig **arr; const secp256k1_musig_partial_sig *at_gi = NULL; unsigned char sig0[64];
-    int ret, ok_sess, ok_a, ok_b; unsigned n_illegal = 0;
-    verif_ctx_init(&ctx);
-    ctx.illegal_callback.fn = cb_illegal_d; ctx.illegal_callback.data = &n_illegal;
-    __CPROVER_assume(n <= 100000 && k < 32);
-    arr = malloc(n ? n * sizeof(*arr) : 1);
-    __CPROVER_assume(arr != NULL);
-    /* list shape without a quantifier: every entry is &ga except two arbitrary positions holding NULL, &ga or &gb; ga, gb arbitrary bytes */
-    __CPROVER_array_set(arr, &ga);
-    if (j1 < n) arr[j1] = sel1 == 0 ? NULL : (sel1 == 1 ? &ga : &gb);
-    if (j2 < n) arr[j2] = sel2 == 0 ? NULL : (sel2 == 1 ? &ga : &gb);
-    if (gi < n) at_gi = arr[gi];
-    verif_c12_gi = gi; verif_c12_j1 = j1; verif_c12_j2 = j2; g_k = k;
-    memcpy(sig0, gsig64, 64);
-    ok_sess = gsess.data[0] == 0x9d && gsess.data[1] == 0xed && gsess.data[2] == 0xe9 && gsess.data[3] == 0x17;
-    ok_a = ga.data[0] == 0xeb && ga.data[1] == 0xfb && ga.data[2] == 0x1a && ga.data[3] == 0x32;
-    ok_b = gb.data[0] == 0xeb && gb.data[1] == 0xfb && gb.data[2] == 0x1a && gb.data[3] == 0x32;
-    ret = secp256k1_musig_partial_sig_agg(&ctx, use_sig ? gsig64 : NULL, use_sess ? &gsess : NULL, use_arr ? arr : NULL, n);
-    __CPROVER_assert(ret == 0 || ret == 1, "C12 partial_sig_agg gates: returns 0 or 1");
-    __CPROVER_assert(g_error == 0 && n_illegal <= 1, "C12 partial_sig_agg gates: no error callback, at most one illegal-argument report");
-    if (ret == 0) __CPROVER_assert(gsig64[g_k] == sig0[g_k] && gsig64[32 + g_k] == sig0[32 + g_k], "C12 partial_sig_agg gates: no signature written on failure, for every n");
-    if (!use_sig || !use_sess || !use_arr || n == 0) __CPROVER_assert(ret == 0 && n_illegal == 1, "C12 partial_sig_agg gates: NULL argument or n = 0 is illegal");
-    else {
-        if (gi < n && at_gi == NULL) __CPROVER_assert(ret == 0 && n_illegal == 1, "C12 partial_sig_agg gates: a NULL entry at ANY index is illegal");
-        if (gi < n && at_gi != NULL && !(at_gi == &ga ? ok_a : ok_b)) __CPROVER_assert(ret == 0 && n_illegal == 1, "C12 partial_sig_agg gates: a signature object without its magic at ANY index is illegal");
-        if (!ok_sess) __CPROVER_assert(ret == 0 && n_illegal == 1, "C12 partial_sig_agg gates: session without its magic is illegal");
-        if (ret == 1) {
-            __CPROVER_assert(n_illegal == 0 && ok_sess, "C12 partial_sig_agg gates: success means no report and an initialised session");
-            __CPROVER_assert(gsig64[g_k] == gsess.data[5 + g_k], "C12 partial_sig_agg gates: first half is the session's final nonce x, for every n");
-#ifndef VERIF_NATIVE
-            __CPROVER_assert(be256(&gsig64[32]) < N_(), "C12 partial_sig_agg gates: the s value written is a canonical scalar, for every n");
-#endif
-        }
-        if (ret == 1 && n > 150) REACH("partial_sig_agg gates success on a long list");
-        if (ret == 1 && n == 1) REACH("partial_sig_agg gates success n = 1");
-        if (ret == 1) REACH("partial_sig_agg gates success");
-        if (n > 100 && gi == 77 && at_gi == NULL) REACH("partial_sig_agg gates NULL entry in the middle");
-        if (n > 100 && gi == 78 && at_gi == &gb && !ok_b && ok_a) REACH("partial_sig_agg gates bad magic in the middle");
-    }
-}
+/* the loop-contract variant for symbolic n_sigs is harness/C12/psig_agg_loop.c (unit C12.partial_sig_agg_loop) */
